@@ -46,6 +46,8 @@ def requests(rng, n):
         k = rng.random()
         if k < 0.3:
             s, lab = gen.mutate(rng, s, long_ok=False)
+        elif k < 0.36 and m in ("yescrypt", "gost_yescrypt"):
+            s = gen.gen_yes_unsupported(rng, m)       # parses, then fails inside the KDF
         p = gen.gen_phrase(rng, rng.choice([0, 8, 20, 100, 600 if k > 0.95 else 30]))
         if gen.cost_units(s, len(p)) > BUDGET:
             continue
@@ -178,6 +180,8 @@ def do_histories(args):
                 viol("leak", "%d library-allocated blocks live after crypt_gensalt_ra + free" % heap)
             if mt[0] == "ra" and heap > 1:
                 viol("leak", "%d library-allocated blocks live (only *data may be)" % heap)
+            if int(r.get("maps", "0")) > 0:
+                viol("mapping-leak", "%s library mappings still live after the call" % r.get("maps"))
         if len(acc.samples) < 2:
             acc.sample({"start": cls, "lines": lines[:5]})
     if exe:
